@@ -742,6 +742,14 @@ class SNum:
     def __neg__(s): return SNum(-s.p, s.is_int)
     def __pos__(s): return s
 
+    def __and__(s, o):
+        # integer & (2^k - 1)  ==  integer mod 2^k  (python semantics, also for negatives)
+        if s.is_int and isinstance(o, (int, rnp.integer)) and o >= 0 and (int(o) + 1) & int(o) == 0:
+            return s % (int(o) + 1)
+        raise SymxUnsupported('bitwise and on a symbolic integer')
+
+    __rand__ = __and__
+
     def __abs__(s):
         c = s.const()
         if c is not None:
@@ -997,8 +1005,11 @@ def sx_sqrt(x):
                 else:
                     im.append((v, e))
             outer = Poly({tuple(om): r})
-            p = Poly({tuple(im): Fraction(t)})
-            if p.is_const() and p.cval() == 1:
+            # the squarefree integer t is split into primes: sqrt(6) = sqrt(2) sqrt(3), so that products of roots share atoms
+            for pr in _prime_factors(t):
+                outer = outer * _sqrt_prime(pr)
+            p = Poly({tuple(im): Fraction(1)})
+            if p.is_const():
                 return SNum(outer, False)
     v = mkvar(('sqrt', p.key()), None, 'R', 'sqrt', {'nonneg': True})
     if not v.defs:
@@ -1010,6 +1021,28 @@ def sx_sqrt(x):
     if outer is not None:
         r = r * outer
     return SNum(r, False)
+
+
+def _prime_factors(t):
+    out, d = [], 2
+    while d * d <= t:
+        while t % d == 0:
+            out.append(d)
+            t //= d
+        d += 1
+    if t > 1:
+        out.append(t)
+    return out
+
+
+def _sqrt_prime(pr):
+    p = Poly.const(pr)
+    v = mkvar(('sqrt', p.key()), f'sqrt_{pr}', 'R', 'sqrt', {'pos': True})
+    if not v.defs:
+        v.defs = [v.z > 0, v.z * v.z == pr]
+        v.ev = lambda env, pr=pr: math.sqrt(pr)
+        SQRT[v.id] = p
+    return Poly.var(v.id)
 
 
 def _square_part(n):
